@@ -462,6 +462,10 @@ func main() {
 	}
 	for _, name := range cfg.Summarise {
 		// pure callee summarised as an arbitrary value of its result type (fresh variable per call)
+		if strings.HasSuffix(name, ".CompUsageRatioSeparately") {
+			stubs[name] = shareSummary
+			continue
+		}
 		stubs[name] = summaryStub
 	}
 	outDir := filepath.Join(verifDir, "out", cfg.ID)
